@@ -561,4 +561,16 @@ def exampleMsg : Msg :=
     realm := some [101, 120, 97, 109, 112, 108, 101, 46, 111, 114, 103]  /- "example.org" -/, username := some [97, 108, 105, 99, 101, 58, 98, 195, 182, 98]  /- "alice:böb" -/,
     iceControlling := [8, 7, 6, 5, 4, 3, 2, 1] }
 
+/-- DATA announces 1000 bytes, 4 are present -/
+def overrunPacket : Bytes :=
+  [0x00, 0x01, 0x00, 0x08, 0x21, 0x12, 0xa4, 0x42, 0, 0, 0, 0, 0, 0, 0, 0, 0, 0, 0, 0,
+   0x00, 0x13, 0x03, 0xe8, 0x41, 0x42, 0x43, 0x44]
+
+/-- what the decoder makes of it: accepted, DATA of 1000 bytes of which 4 come from the packet -/
+def overrunResult : Msg :=
+  { Msg.fresh with type := 1, data := some (rdResize [] 1000 [0x41, 0x42, 0x43, 0x44]).1 }
+
+/-- a Binding request with USERNAME "abcd" -/
+def bitflipMsg : Msg := { type := 1, username := some [0x61, 0x62, 0x63, 0x64] }
+
 end Qx.C14
